@@ -704,9 +704,11 @@ def generate(repo, unit_path, generators=None, auto=None):
         for b in blocks:
             nb.append(b)
             if b.kind == 'extract':
-                for (rel, parent, new_anchor) in auto:
+                for a_ in auto:
+                    (rel, parent, new_anchor) = a_[:3]
+                    item_rel = a_[3] if len(a_) > 3 else rel     # a crate-level const may live in another file of the crate
                     if b.extract.relpath == rel and b.extract.anchor == parent and not getattr(b.extract, 'is_auto', False):
-                        e2 = Extract(rel, new_anchor, b.unit_line)
+                        e2 = Extract(item_rel, new_anchor, b.unit_line)
                         e2.rules = [r for r in b.extract.rules if r in ('T1', 'T2')]
                         e2.props = []
                         e2.is_auto = True
